@@ -149,3 +149,9 @@ def register(reg, prog):
                            'implies(not self.replay_window_persisted, self.gh_disk_unknown)'],
                  modifies=['self.replay_window_persisted', 'self.gh_disk_next', 'self.gh_disk_unknown'],
                  ensures={'disk-says-unknown-before-any-acceptance-is-reported': 'self.gh_disk_unknown and not self.replay_window_persisted'})
+
+
+def bounded(tier, seed):
+    # the driver runs under python3-vt, where aiocoap.oscore imports with the functional stand-ins of specs/oscore_standins.py
+    from specs.c13_history import bounded as b
+    return b(tier, seed)
